@@ -22,7 +22,8 @@ def tasks(tier, seed):
 
 
 def extra(led, tier, seed):
-    from contracts import gemini_large
+    from contracts import gemini_large, gemini_registry
+    led.extend(o for o in gemini_registry.frame_obligations() if ".compute_affinity" not in o.name)
     led.extend(gemini_large.obligations(seed, tier))
     from contracts import lean_bounds
     led.extend(lean_bounds.obligations(tier, file="Lemmas.lean", lemmas=["tangent_agree"], fn="specs.gemini (lemma L2)"))
